@@ -84,7 +84,13 @@ fn extract_single_expr(
 
     for item in items {
         let item_pos = item.position();
-        if item_pos.contains_offset(offset) {
+        // After a parse error, items can overlap and an expression
+        // can start before the item it is in. Only rewrite an item
+        // that fully contains the expression.
+        if item_pos.contains_offset(offset)
+            && item_pos.start_offset <= expr.position.start_offset
+            && expr.position.end_offset <= item_pos.end_offset
+        {
             // All the items before this one.
             result.push_str(&src[..item_pos.start_offset]);
 
@@ -117,6 +123,10 @@ fn extract_single_expr(
 
             break;
         }
+    }
+
+    if result.is_empty() {
+        return Err("The selected expression is not inside a single definition.".to_owned());
     }
 
     Ok(result)
